@@ -34,7 +34,7 @@ def work(args):
             if rc != 0:
                 results.append((name, "PATCH DOES NOT APPLY", []))
                 continue
-            rc, out = sh(f"{HERE}/tools/run_seed.sh {wt} quick {' '.join(props)}")
+            rc, out = sh(f"SEED_REPLAY_DIR=/tmp/seed_replays/{name} {HERE}/tools/run_seed.sh {wt} quick {' '.join(props)}")
             sh(f"cd {wt} && git checkout -q -- .")
             det = [p for p in props if f"VIOLATION property={p} " in out]
             weak = [p for p in props if f"VIOLATION property={p} " in out and
